@@ -376,7 +376,8 @@ def trace_event(eid, x, w, value, sigma_m, sigma_p, mean, cls, vector):
     Sc = 1.0
     if rng_ > 0:
         Sc = 10.0 ** math.floor(math.log10(2e5 / rng_))
-    sc = lambda v: int(round((v - x0) * Sc))
+    # a non-finite reported summary becomes a value no quantile can equal, so that TLC rejects the event
+    sc = lambda v: int(round((v - x0) * Sc)) if math.isfinite(v) else -10 ** 6
     return dict(id=eid, x=[sc(v) for v in x], w=[int(v) for v in w], tot=[int(v) for v in vector.get('tot', [1, 1])],
                 q=[sc(value - sigma_m), sc(value), sc(value + sigma_p)], mean=sc(mean), tol=3,
                 _cls=cls, _vector=vector, _detail='trace %r weights %r reported value=%r -%r +%r mean=%r' %
